@@ -29,6 +29,13 @@ def run(ctx):
     ctx.floor('I/O call sites in the loader cone', n, 10)
     iorules.take_bytes_length_check(ctx, 'Y1')
     iorules.reader_dependent_state(ctx, load + entry, 'Y2')
+    # .. nor anywhere else in the crate: a wrapper around the input (`impl Read for Patient<R>` retrying WouldBlock, seed C14-r) is
+    # called by std's read_exact, not by the loader, so the call-graph cone does not contain it.  The crate implements no I/O trait.
+    io_impls = sorted(b_.name for b_ in fx.bodies if b_.kind == 'fn' and ' as std::io::' in b_.name)
+    ctx.inst('Y2', 'io-trait impls', not io_impls, 'the crate implements std::io traits for %s; must be none (the input is read as the caller hands it in)'
+             % (io_impls or 'nothing'), None, key='LOAD|Y2|io-impls')
+    rest = [b_ for b_ in fx.bodies if b_ not in load and b_ not in entry and b_.kind != 'promoted' and not b_.name.startswith('asefile::util::')]
+    iorules.reader_dependent_state(ctx, rest, 'Y2b')
 
     # ---------- Y3a: constructions of IoError
     sites = []
